@@ -42,11 +42,19 @@ def main():
             continue
         ev = os.path.join(V, 'evidence', prop + '.json')
         saved = open(ev).read() if os.path.exists(ev) else None
+        rd0 = os.path.join(V, 'replays', prop)
+        before = set(os.listdir(rd0)) if os.path.isdir(rd0) else set()
         t0 = time.time()
         r = sh('cd %s && VERIF_REPO=%s VERIF_SCALE=0.00001 ./check %s' % (V, WT, prop))
         if saved is not None:
             open(ev, 'w').write(saved)
-        sh('rm -rf %s/replays/%s' % (V, prop))
+        rd = os.path.join(V, 'replays', prop)
+        for fn in (os.listdir(rd) if os.path.isdir(rd) else []):     # only what this run wrote
+            if fn not in before:
+                try:
+                    os.unlink(os.path.join(rd, fn))
+                except OSError:
+                    pass
         base = os.path.basename(reg)
         bites = any((base in l) and ((' fails' in l) or l.startswith('VIOLATION')) for l in r.stdout.splitlines())     # the replay tier prints 'regress input <file> fails: <report>' (or names the file in the VIOLATION line)
         line = [l for l in r.stdout.splitlines() if base in l][:1]
